@@ -42,6 +42,19 @@ CLAIMED = {
             "The link from the syndrome argument to the implementation is the trace validation of polymod-dependent "
             "results (every encode compares the full string); HRP/separator errors are covered by sampling only.",
             "DESIGN.md section 5 C11"),
+    "C17": ("TLA+ PathGrammar spec: TLC growing-path state machine over real-scale numerals + TLC trace validation of "
+            "recorded Bip32Path.parse / by_path calls (by_path compared with iterated ckd)",
+            "PathGrammar.tla defines the path grammar character by character with decimal-string range checks (no 32-bit "
+            "overflow). TLC explores a machine that grows a path one component per step: every list of length 0..5 over "
+            "{0,1,2^31-1,2^31,2^32-1} x 3 spellings x 2 roots, one faulty component at every position, bad roots, 6..9 "
+            "levels; invariants: parse matches the token table, round trip, marker equivalence, fault rejected, deep "
+            "honoured-or-rejected. The same Parse operator judges every recorded parse/by_path call (the enumerated "
+            "grammar, random 32-bit lists, random faulty numerals); by_path nodes are compared with the fold of "
+            "single-step derivations.",
+            "Spellings on which the statement is silent are not judged; by_path's reference is the implementation's own "
+            "ckd (covered by C01). One known finding (D-C17b, Bip32Path.parse drops components after the fifth) is "
+            "pinned by the repository's own test and is listed in known_findings.json.",
+            "DESIGN.md section 5 C17"),
 }
 
 ALL = ["C%02d" % i for i in range(1, 21)]
